@@ -83,6 +83,11 @@ pub(crate) trait Scenario {
     fn after_step(&self, _sim: &Sim, _step: usize) -> Vec<(String, String)> {
         vec![]
     }
+    /// called when the default environment found nothing left to do; may inject the next world
+    /// event (chain growth, fork switch, ...) and return true to keep the run going
+    fn on_quiescent(&self, _sim: &mut Sim) -> bool {
+        false
+    }
 }
 
 fn truncate_filters(m: &InFlight, j: usize) -> Option<InFlight> {
@@ -244,8 +249,13 @@ pub(crate) fn run(
                 apply_dev(sc, &mut sim, d);
                 idle = 0;
                 true
+            } else if default_step(&mut sim, &mut idle) {
+                true
+            } else if sc.on_quiescent(&mut sim) {
+                idle = 0;
+                true
             } else {
-                default_step(&mut sim, &mut idle)
+                false
             }
         });
         match r {
